@@ -45,14 +45,11 @@ def parse_set(txt):
 
 
 def parse_state(label):
-    """label: '/\\ live = {...}\n/\\ cap = 8\n/\\ free = ...\n/\\ lost = ...' (escaped newlines already decoded)"""
+    """label: '/\\ live = {...}\n/\\ cap = 8\n/\\ free = ...\n/\\ lost = ...' (escaped newlines already decoded).
+    TLC wraps long values over several lines: a conjunct extends to the next '/\\ ' marker."""
     st = {}
-    for line in label.split("\n"):
-        line = line.strip()
-        m = re.match(r"/\\ (\w+) = (.*)$", line)
-        if not m:
-            continue
-        k, v = m.group(1), m.group(2)
+    for m in re.finditer(r"/\\ (\w+) = (.*?)(?=\n/\\ |\Z)", label, flags=re.S):
+        k, v = m.group(1), " ".join(m.group(2).split())
         if k == "cap":
             st["cap"] = int(v)
         elif k in ("free", "lost"):
@@ -158,6 +155,13 @@ def replay_graph(c, res, want):
             res.notes.append("HARNESS-ERROR: TLC did not complete cleanly on the specification (spec invariant violated or tool failure):\n" + out[-1500:])
             return probs
         nodes, edges, init = parse_dot(os.path.join(work, "g.dot"))
+        for nid, stt in nodes.items():
+            livebytes = set()
+            for off, size, al in stt["live"]:
+                livebytes.update(range(off, off + size))
+            if len(stt) != 4 or (livebytes | stt["free"] | stt["lost"]) != set(range(stt["cap"])):
+                res.notes.append("HARNESS-ERROR: state %s of the dumped graph was not parsed completely: %r" % (nid, stt))
+                return probs
         if init is None or len(nodes) != distinct:
             res.notes.append("HARNESS-ERROR: state graph dump incomplete: %d nodes parsed, TLC reports %d distinct states" % (len(nodes), distinct))
             return probs
